@@ -36,7 +36,7 @@ CLAIMED = {
    'Signal-sequence monitors (subscribe first and once, at most one terminal, nothing after it, future resolved once) evaluated by TLC on every recorded callback of every subscriber/future in both roles.',
    CONN_NOTE, 'DESIGN 6/C07', 'conn'),
  'C08': ('model_checking',
-   'TLC trace validation of recorded executions of the real endpoints against RSocket.tla (+ design-level TLC model checking of the same monitors)',
+   "TLC trace validation of recorded executions of the real endpoints against RSocket.tla (+ design-level TLC model checking of the same monitors); the repository's own test suite recorded by a pytest plugin (no change to /repo) and every connection trace validated against the same TLA+ monitor",
    "A wire monitor per endpoint (RSocket.tla OnEnq) judges every queued frame against the endpoint's own earlier emissions and receptions: SETUP first and once, parity, first frame is a request, frame types allowed for role and interaction model, positive initial n, no payload after own complete, nothing after ERROR / requester CANCEL / both directions complete, connection frames on stream 0 only.",
    CONN_NOTE, 'DESIGN 6/C08', 'conn'),
  'C09': ('model_checking',
